@@ -39,6 +39,10 @@ def ops(t):
         'execve-renaming': lambda ts: [R('BSC_execve', 1, (1, 2, 3, 0), t, ts), R('TRACE_DATA_EXEC', 0, (PIDOF[t], 0, 0, 0), t, ts + 1),
                                        R('TRACE_STRING_EXEC', 0, tid=t, ts=ts + 2, data=(b'Z%d' % t).ljust(32, b'\0')),
                                        R('BSC_execve', 2, (0, 0, 0, 0), t, ts + 3)],
+        # a long call: 150 complete mach traps nested inside one open() (a window far longer than any other op's)
+        'open-with-150-nested-traps': lambda ts: [R('BSC_open', 1, (1, 0, 0, 0), t, ts), R('VFS_LOOKUP', 3, tid=t, ts=ts + 1, data=B.lookup_chunks(5, '/long')[0][0])] +
+                                                 [R('MSC_mach_reply_port', 1 + (i % 2), (7, 0, 0, 0), t, ts + 2 + i) for i in range(300)] +
+                                                 [R('BSC_open', 2, (0, 3, 0, 0), t, ts + 302)],
         'image': lambda ts: [R('DYLD_uuid_map_a', 0, (0x11 * t, 0x22, 0x1000 * t, 3), t, ts)],
         'dlopen-500': lambda ts: [R('DBG_DYLD_TIMING_DLOPEN', 1, (0, 500, 1, 0), t, ts), R('DBG_DYLD_TIMING_DLOPEN', 2, (0, 0xbeef, 0, 0), t, ts + 1)],
         'announce-500': lambda ts: [R('TRACE_STRING_GLOBAL', 3, tid=t, ts=ts, data=B.global_string_chunks(0, 500, '/usr/lib/libz')[0][0])],
@@ -205,7 +209,7 @@ class C13(Check):
             'dump with a static thread map; x configurations tid {None,1,2} x process {None,name,pid-string,other,the name after the rename} x class list '
             '(all subsets of {1,3,4,7,0x1f} of size <=2) x BSD subclass list {[],[0x40c],[0x40d]} (list-typed; tuple-typed for the '
             'class/subclass dimension). Oracle: filtered traces == unfiltered traces restricted to those whose first event satisfies '
-            'the filter (the process a trace belongs to is the one its thread has when the trace is reported, read from the unfiltered run). (B) request histories: all sequences of <=3 requests over {traces, formatted_traces, callstacks} on one '
+            'the filter, also on streams with a 300-record call and with class lists that repeat an entry (the process a trace belongs to is the one its thread has when the trace is reported, read from the unfiltered run). (B) request histories: all sequences of <=3 requests over {traces, formatted_traces, callstacks} on one '
             'parser object x 11 streams (incl. samples before/after image announcements, a string id / thread name / new thread used before the record that announces it, dumps cut in the middle of operations) x class lists x subclass lists x '
             'tid/process {none, set} x {list, tuple}: each request equals the same request on a fresh parser; filter settings equal '
             'and same type afterwards. (C) the command-line tool: `traces --no-color` with every tid/process/class/subclass option combination prints the library\'s lines for the same settings. states = distinct configurations; transitions = requests; non-trivial = a non-empty filter.')
@@ -221,6 +225,7 @@ class C13(Check):
         streams = list(seqs(alphabet, L, 1))
         out = [('A', ch) for ch in chunked(streams, 70 if L == 2 else 200)]
         out += [('B', si, as_tuple) for si in range(len(HIST_STREAMS)) for as_tuple in (False, True)]
+        out.append(('A+', None))
         out.append(('cli',))
         return out
 
@@ -252,7 +257,28 @@ class C13(Check):
                                     acc.violation('cli-traces-differ-from-library', {'kind': 'cli', 'args': args},
                                                   {'exit': code, 'error': repr(exc)[:200], 'got': lines[:3], 'expected': exp[:3]})
 
+    def run_aplus(self, acc):
+        """the commutation check on a stream with a very long call, and with class lists that repeat an entry."""
+        dup_lists = [(4, 4), (3, 3), (4, 1, 4), (7, 7), (1, 1)]
+        streams = [(('open-with-150-nested-traps', 1), ('getpid', 2), ('open+lookup', 1)), (('getpid', 1), ('open-with-150-nested-traps', 2))]
+        for opseq in streams:
+            for cfg in [(t, p, c, s) for t in (None, 1) for p in (None, 'A') for c in class_lists() + dup_lists for s in SUBCLASS_LISTS]:
+                bad = judge_commute(opseq, cfg, False)
+                acc.case(nontrivial=True, transitions=2, state=h64((cfg, 'A+')))
+                if bad:
+                    acc.violation(bad[0], {'kind': 'A', 'ops': [list(o) for o in opseq], 'cfg': [cfg[0], cfg[1], list(cfg[2]), list(cfg[3])], 'as_tuple': False},
+                                  {k: (v if not isinstance(v, list) else v[:3] + ['...']) for k, v in bad[1].items()})
+        for opseq in ((('open+lookup', 1), ('getpid', 2), ('mmap', 1)),):
+            for c in dup_lists:
+                for s in SUBCLASS_LISTS:
+                    bad = judge_commute(opseq, (None, None, c, s), False)
+                    acc.case(nontrivial=True, transitions=2, state=h64((c, s, 'dup')))
+                    if bad:
+                        acc.violation(bad[0], {'kind': 'A', 'ops': [list(o) for o in opseq], 'cfg': [None, None, list(c), list(s)], 'as_tuple': False}, bad[1])
+
     def run_shard(self, desc, acc):
+        if desc[0] == 'A+':
+            return self.run_aplus(acc)
         if desc[0] == 'cli':
             return self.run_cli(acc)
         if desc[0] == 'A':
